@@ -293,6 +293,55 @@ def escape(ctx: Any) -> List[Ob]:
             sc_cache[row[2]] = row[2](ctx)
         ok, why = sc_cache[row[2]]
         obs.append(ob(R, (file, origin_fn), o.text, f'residual site ({short}): unreachable under its side condition -- {row[2].__doc__}', ok, why, None if ok else o.describe()))
+    # a handler that swallows an exception and falls through must not reach a use of a local that the interrupted statement
+    # was about to bind (UnboundLocalError in the event loop): for every local read in a function on the event-loop path, no
+    # path that takes an exception edge reaches the read without an assignment of that local having completed
+    for f in sorted(ctx.cg.closure(roots), key=lambda x: x.full):
+        if not any(isinstance(x, ast.Try) for x in ast.walk(f.node)):
+            continue
+        cfg = cfg_of(f.node)
+        assigned: Dict[str, List[Any]] = {}
+        for n in cfg.nodes:
+            tg: List[ast.AST] = []
+            a = n.ast
+            if n.kind == 'stmt' and isinstance(a, (ast.Assign, ast.AnnAssign, ast.AugAssign)):
+                tg = list(a.targets) if isinstance(a, ast.Assign) else ([a.target] if getattr(a, 'value', None) is not None or isinstance(a, ast.AugAssign) else [])
+            elif n.kind == 'for':
+                tg = [a.target]
+            elif n.kind == 'with':
+                tg = [it.optional_vars for it in a.items if it.optional_vars is not None]
+            elif n.kind == 'except' and getattr(a, 'name', None):
+                assigned.setdefault(a.name, []).append(n)
+            for t in tg:
+                for x in ast.walk(t):
+                    if isinstance(x, ast.Name):
+                        assigned.setdefault(x.id, []).append(n)
+        params = set(f.params) | {a_.arg for a_ in f.node.args.kwonlyargs} | ({f.node.args.vararg.arg} if f.node.args.vararg else set()) | ({f.node.args.kwarg.arg} if f.node.args.kwarg else set())
+        for var, defs in sorted(assigned.items()):
+            if var in params:
+                continue
+            uses = [n for n in cfg.nodes if n not in defs and any(isinstance(x, ast.Name) and x.id == var and isinstance(x.ctx, ast.Load) for e in n.exprs() for x in ast.walk(e))]
+            if not uses:
+                continue
+            # DFS over (node, took an exception edge): an assigning node kills the path unless it is left by an exception edge
+            seen = set()
+            todo = [(cfg.entry, False)]
+            hit = None
+            while todo and hit is None:
+                n, exc = todo.pop()
+                if (n.id, exc) in seen:
+                    continue
+                seen.add((n.id, exc))
+                if exc and n in uses:
+                    hit = n
+                    break
+                for s2, lab in n.succ:
+                    if lab == 'exc':
+                        todo.append((s2, True))
+                    elif n not in defs:
+                        todo.append((s2, exc))
+            if hit is not None:
+                obs.append(ob(R, f, hit.ast, f'`{var}` is bound on every path that reaches this use (a handler that swallows the exception of the statement binding it must not fall through to the use)', False, f'after an exception is caught, line {hit.line} reads `{var}` although the statement that assigns it did not complete: UnboundLocalError escapes into the event loop'))
     # resolving a future that is already done or cancelled raises InvalidStateError: every set_result / set_exception reachable
     # from the entry points is reached only through the `not done` edge of a test of that very future (a waiter can be
     # cancelled, or resolved by its time-out, at any moment before the datagram that would wake it)
